@@ -132,7 +132,10 @@ def wquantiles(x, w, qs):
         k = int(np.searchsorted(C, q, side='left'))          # first support point with C >= q
         k = min(k, len(ys) - 1)
         if k == 0:
-            res.append((ys[0], ys[0]))
+            # the first support point already reaches q; if it reaches it EXACTLY (two samples of weight one half and
+            # q = 0.5) the cumulative weight stays at q over the zero-weight points that follow: the same plateau rule
+            k1 = int(np.searchsorted(C, C[0], side='right')) - 1 if (not simple and C[0] == q) else 0
+            res.append((ys[0], ys[k1]))
             continue
         if simple:
             f = (q - C[k - 1]) / (C[k] - C[k - 1])
